@@ -2,6 +2,7 @@
 import os
 import tempfile
 from engine.ob import REPO_SRC  # noqa: E402
+from engine.ob import need
 from engine.ob import Obligation, post, reset_tally_caches
 
 LEVEL = 'other'
@@ -129,7 +130,9 @@ def matching(i):
         """
         import re
         from tally import expr_parser
-        from tally.merchant_engine import _regex_call
+        from tally import merchant_engine as _me
+        need(hasattr(_me, '_regex_call'), 'merchant_engine._regex_call is gone: the literal the migration writes for a pattern cannot be obtained on its own')
+        _regex_call = _me._regex_call
         reset_tally_caches()
         legacy = bool(re.search(pat, desc.upper(), re.IGNORECASE))
         expr = _regex_call(pat)
